@@ -201,22 +201,33 @@ def mutate_attr(
     return obj
 
 
-def invalidate_attrs(obj: Any, attr: str, invalidation_map: Dict[str, Set[str]] = None):
+def invalidate_attrs(
+    obj: Any,
+    attr: str,
+    invalidation_map: Dict[str, Set[str]] = None,
+    _seen: Optional[Set[str]] = None,
+):
     if invalidation_map is None:
         invalidation_map = obj.__spec_class__.invalidation_map
     if not invalidation_map:
         return
 
+    seen = {attr} if _seen is None else _seen
+
     # Handle invalidation
     for invalidatee in invalidation_map.get(attr, set()) | invalidation_map.get(
         "*", set()
     ):
-        if invalidatee == attr:
+        if invalidatee in seen:
             continue
+        seen.add(invalidatee)
         try:
             delattr(obj, invalidatee)
         except AttributeError:
-            pass
+            # Nothing is stored for `invalidatee` itself (e.g. a property that
+            # does not cache), but values derived from it may be: deleting
+            # would have invalidated them, so carry on down the chain.
+            invalidate_attrs(obj, invalidatee, invalidation_map, seen)
 
 
 def mutate_value(
